@@ -6,6 +6,7 @@ variable is its own conjugate.  Coefficients are exact: Fractions for real and i
 are lifted exactly (Fraction(float)).  Equality is equality of normal forms.
 """
 from fractions import Fraction
+import numpy as _np
 import numbers
 
 import numpy as np
@@ -58,6 +59,8 @@ class Poly:
 
     # ---- arithmetic
     def __add__(self, o):
+        if isinstance(o, _np.ndarray):      # numpy defers to us (__array_priority__): broadcast elementwise
+            return _np.vectorize(lambda v: self + v, otypes=[object])(o)
         if not isinstance(o, Poly):
             try:
                 o = Poly.const(o)
@@ -86,6 +89,8 @@ class Poly:
         return Poly({m: (-a, -b) for m, (a, b) in self.t.items()})
 
     def __sub__(self, o):
+        if isinstance(o, _np.ndarray):
+            return _np.vectorize(lambda v: self - v, otypes=[object])(o)
         if not isinstance(o, Poly):
             try:
                 o = Poly.const(o)
@@ -94,9 +99,13 @@ class Poly:
         return self + (-o)
 
     def __rsub__(self, o):
+        if isinstance(o, _np.ndarray):
+            return _np.vectorize(lambda v: v - self, otypes=[object])(o)
         return (-self) + o
 
     def __mul__(self, o):
+        if isinstance(o, _np.ndarray):
+            return _np.vectorize(lambda v: self * v, otypes=[object])(o)
         if not isinstance(o, Poly):
             try:
                 re, im = _lift(o)
